@@ -174,7 +174,12 @@ func (cc *cacheController) coSnoop(struct{}) struct{} {
 
 				memory, exists := cc.l3.GetCacheLine(req.alignedAddr)
 				if !exists {
-					panic("memory address should exist")
+					// Two cores that push a line to the full L3 before the first
+					// displaced line is gone are given the same line to write back:
+					// the other core's command has already done it
+					info.done()
+					mu.Unlock()
+					return true
 				}
 
 				cc.mmu.writeToMemory(req.alignedAddr, memory)
